@@ -25,7 +25,7 @@ import json, sys, re, os
 sid, prop, rc, log, ev, secs = sys.argv[1:7]
 lines = open(log).read().splitlines()
 viol = [l for l in lines if l.startswith("VIOLATION")]
-caught = []
+bounded, refuted = set(), set()
 for l in viol:
     m = re.search(r"replay=(\S+)", l)
     if m and os.path.exists(m.group(1)):
@@ -33,13 +33,23 @@ for l in viol:
             r = json.load(open(m.group(1)))
         except Exception:
             continue
-        if r.get("kind") == "obligation" or "obligation" in r:
-            caught.append("obligation " + str(r.get("obligation", r.get("name", "")))[:200])
+        if r.get("kind") in ("obligation", "structural"):
+            refuted.add(str(r.get("obligation", "")).split("::", 1)[-1])
         else:
-            caught.append("bounded %s: %s" % (r.get("part", ""), str(r.get("clause", r.get("what", "")))[:160]))
+            bounded.add("%s: %s" % (r.get("part", ""), str(r.get("clause", r.get("what", "")))[:160]))
+not_proved = {}
+try:
+    e = json.load(open(ev))
+    for o in e.get("coverage", {}).get("not_proved", []):
+        not_proved.setdefault(o["obligation"].split("::", 1)[-1], o["status"])
+except Exception:
+    pass
 print(json.dumps(dict(seed=sid, property=prop, applies=True, exit=int(rc), violation_lines=len(viol),
                       no_failing_input=sum(1 for l in viol if l.rstrip().endswith("no-failing-input-found")),
-                      caught_by=sorted(set(caught))[:6], seconds=int(secs))))
+                      bounded_clauses=sorted(bounded)[:6],
+                      obligations_refuted=sorted(refuted)[:8],
+                      obligations_not_proved=sorted("%s (%s)" % (k, v) for k, v in not_proved.items())[:12],
+                      obligations_not_proved_count=len(not_proved), seconds=int(secs))))
 EOF
   echo "$ID: exit $RC, $(grep -c '^VIOLATION' "$OUT/$ID.log") violation line(s)"
 done
